@@ -271,6 +271,44 @@ def _find_funcs(build):
     return out
 
 
+
+def wipe_summaries(build):
+    """Must-wipe summaries of the x86-64 assembly functions of a configuration,
+    for the effect analysis of the C callers (C13): every function is
+    interpreted from its entry to `ret` with the six integer argument registers
+    holding distinct pointers (arg0..arg5) and %rsp a stack pointer; an 8-byte
+    cell of an argument object that holds constant zero at the return was wiped
+    on every path (the run is a single path: any data-dependent branch, loop or
+    unsupported instruction gives no summary, i.e. no credit).  Returns
+    {function: (must {arg index: frozenset of byte offsets}, maywrite {arg index: bool})}."""
+    from . import repo
+    out = {}
+    argregs = ("rdi", "rsi", "rdx", "rcx", "r8", "r9")
+    for name, (u, af, fn) in _find_funcs(build).items():
+        mc = Machine(fn)
+        for k, r in enumerate(argregs):
+            mc.regs[r] = PtrVal("arg%d" % k, 0)
+        mc.regs["rsp"] = PtrVal("stack", 0)
+        for r in ("rbx", "rbp", "r12", "r13", "r14", "r15", "rax", "r10", "r11"):
+            mc.regs[r] = sym_word("in_" + r)
+        try:
+            if mc.run(0) != "ret":
+                continue
+        except Unsupported:
+            continue
+        must, mayw = {}, {}
+        for (region, off), v in mc.mem.items():
+            if not region.startswith("arg"):
+                continue
+            k = int(region[3:])
+            if not isinstance(v, PtrVal) and to_int(v) == 0 and off >= 0:
+                must.setdefault(k, set()).update(range(off, off + 8))
+            else:
+                mayw[k] = True
+        out[name] = ({k: frozenset(v) for k, v in must.items()}, mayw)
+    return out
+
+
 def decoder_from_store(fn, K):
     """the value a K-share masked word stands for, as defined by the back
     end's own ascon_masked_word_x<K>_store: run it on symbolic shares and read
